@@ -4,7 +4,9 @@ package xport
 
 import (
 	"errors"
+	"fmt"
 	"io"
+	"io/fs"
 	"net"
 	"os"
 	"sync"
@@ -18,7 +20,7 @@ var ErrInjected = errors.New("verif: injected transport error")
 // ReadStep is one scripted Read: hand out up to N bytes of the reply, and/or return Err.
 type ReadStep struct {
 	N   int    `json:"n"`
-	Err string `json:"err,omitempty"` // "" | "deadline" | "eof" | "inject"
+	Err string `json:"err,omitempty"` // "" | "deadline" | "eof" | "inject" | "deadline-wrapped" | "eof-wrapped"; N > 0 together with Err hands over bytes AND the error in one Read
 	// SleepMs > 0: the Read blocks this long (real time) before it returns, as a slow device would make it.
 	SleepMs int `json:"sleep_ms,omitempty"`
 }
@@ -85,6 +87,10 @@ func kindErr(k string) error {
 		return io.EOF
 	case "inject":
 		return ErrInjected
+	case "deadline-wrapped": // what an *os.File tty or a net.Conn reports: the sentinel inside a wrapping error
+		return &fs.PathError{Op: "read", Path: "/dev/ttyVERIF", Err: os.ErrDeadlineExceeded}
+	case "eof-wrapped":
+		return fmt.Errorf("port adapter: %w", io.EOF)
 	}
 	return nil
 }
